@@ -9,6 +9,8 @@ import (
 	"errors"
 	"io"
 	"io/fs"
+	"os"
+	"path/filepath"
 	"time"
 
 	"github.com/golang/snappy"
@@ -47,7 +49,7 @@ func verifC01SnappyDecode(dst, src []byte) ([]byte, error) {
 // its complete records, in order, with identical payloads; the torn tail produces no record. The reader
 // buffer is the smallest bufio allows (16 bytes), so record headers and bodies straddle buffer refills.
 func VerifC01TornTail() {
-	nrec := 1 + verifrt.Choose("nrec", 2+verifrt.Tier())
+	nrec := 1 + verifrt.Choose("nrec", 3)
 	var file []byte
 	var payloads [][]byte
 	var ends []int
@@ -151,12 +153,18 @@ func VerifC01LogOrder() {
 		seqs = append(seqs, s)
 		verifC01Dir = append(verifC01Dir, verifC01Info{name: itoa(s) + "." + WALFileSuffixes})
 	}
-	if !verifrt.Symbolic() {
-		verifrt.Reach("end") // the directory listing is a model: nothing to run natively
-		return
+	dir := "/p"
+	if !verifrt.Symbolic() { // natively: real files in a temporary directory
+		d, err := os.MkdirTemp("", "verif-c01-")
+		verifrt.Assert(err == nil, "setup: temp dir")
+		defer os.RemoveAll(d)
+		dir = d
+		for _, fi := range verifC01Dir {
+			verifrt.Assert(os.WriteFile(filepath.Join(d, fi.Name()), []byte("x"), 0600) == nil, "setup: file")
+		}
 	}
 	l := &WAL{log: logger.NewLogger(errno.ModuleWal)}
-	w := &LogWriter{logPath: "/p"}
+	w := &LogWriter{logPath: dir}
 	r := &LogReplay{}
 	l.restoreLog(w, r)
 	max := 0
@@ -170,7 +178,7 @@ func VerifC01LogOrder() {
 	prev := 0
 	for _, name := range r.fileNames {
 		s := 0
-		for _, c := range name[len("/p/") : len(name)-len(WALFileSuffixes)-1] {
+		for _, c := range name[len(dir)+1 : len(name)-len(WALFileSuffixes)-1] {
 			s = s*10 + int(c-'0')
 		}
 		verifrt.Assert(s > prev, "log files are not replayed from the oldest to the newest sequence number")
